@@ -164,9 +164,17 @@ def _bind_content(slot, ex, tag):
     if k == "comment" and sv:
         # the slot may directly follow a '*' of the template ("**<text>"): a leading '/' would close the comment
         s.add(sv[0].z != ord("/"))
-    for a, b, c in zip(sv, sv[1:], sv[2:]):
-        # "??/" is the trigraph spelling of a backslash: excluded like the backslash itself
-        s.add(z3.Not(z3.And(a.z == ord("?"), b.z == ord("?"), c.z == ord("/"))))
+    if getattr(slot, "allow_trigraphs", False):
+        for a, b, c in zip(sv, sv[1:], sv[2:]):
+            # "??/" is the trigraph spelling of a backslash: excluded like the backslash itself
+            s.add(z3.Not(z3.And(a.z == ord("?"), b.z == ord("?"), c.z == ord("/"))))
+    else:
+        # no trigraph / digraph can form (three / two columns in the source, one character in the token: another WIDTH, which
+        # the property excludes); alternative spellings are allowed in the dedicated template a11.c only
+        for a, b in zip(sv, sv[1:]):
+            s.add(z3.Not(z3.And(a.z == ord("?"), b.z == ord("?"))))
+            for d in ("<%", "%>", "<:", ":>", "%:"):
+                s.add(z3.Not(z3.And(a.z == ord(d[0]), b.z == ord(d[1]))))
     slot.vars = vs
     return vs
 
@@ -231,6 +239,8 @@ C17_MICRO = [
     ("a9.c", "/* {K}\n*/ int\tg_a;\n\n/*\n{K}*/int\tfn(void)\n{\n\treturn (0);\n} /* {K}\n{K} */ \n"),
     # comment lines that cross the 80-column limit only through their (symbolic) last characters
     ("a10.c", "// " + "x" * 75 + "{K}\n/*\n** " + "y" * 75 + "{K}\n*/\nint\tfn(void)\n{\n\treturn (0);\n}\n/* " + "z" * 74 + "{K}\n*/\n"),
+    # the same long interior line with trigraphs ALLOWED in the replacement text ({Q}): the known width finding lives here only
+    ("a11.c", "/*\n** " + "y" * 75 + "{Q}\n*/\nint\tfn(void)\n{\n\treturn (0);\n}\n"),
     ("a6.c", "int\tfn(char c)\n{\n\tchar\t*p;\n\n\tp = (char *){S};\n\tp = {S} + 1;\n\tc = {C} + 1;\n\tc = (char){C};\n\tc = -{C};\n\tfoo({S}, {S});\n\treturn (c == {C} || p[0] == {C});\n}\n"),
 ]
 
@@ -272,7 +282,12 @@ def c17_micro(idx):
     k = 0
     for raw in tmpl.split("\n")[:-1]:
         parts = []
-        for tok in re.split(r"(\{[SCK]\})", raw):
+        for tok in re.split(r"(\{[SCKQ]\})", raw):
+            if tok == "{Q}":
+                q = F.Slot("comment", "abc")
+                q.allow_trigraphs = True
+                parts.append(q)
+                continue
             if tok == "{S}":
                 k += 1
                 parts.append(F.Slot("str", '"' + "abcd"[: 1 + k % 4] + '"'))
@@ -462,7 +477,7 @@ def run_chunk(chunk, ctx):
                 text = SymStr(its).concretize(m)
                 fp = diff_fp(prop, ref[rk][0], ckey)
                 if prop == "C17":
-                    fp += ":" + spelling_feature(ref[rk][1], text)
+                    fp += ":" + ("alt-spellings-allowed" if prog.name == "a11.c" else spelling_feature(ref[rk][1], text))
                 col.violation(fp,
                               f"{'renaming identifiers' if prop == 'C18' else 'replacing comment/literal text'} changes the diagnostics",
                               dict(prop=prop, name=prog.name, a=ref[rk][1], b=text))
@@ -617,7 +632,8 @@ def replay(case):
     if prop in ("C17", "C18"):
         viol = []
         if ka != kb:
-            viol.append([diff_fp(prop, ka, kb) + ((":" + spelling_feature(case["a"], case["b"])) if prop == "C17" else ""), "diagnostics differ"])
+            feat = "alt-spellings-allowed" if case["name"] == "a11.c" else spelling_feature(case["a"], case["b"])
+            viol.append([diff_fp(prop, ka, kb) + ((":" + feat) if prop == "C17" else ""), "diagnostics differ"])
         return dict(digest=dict(same=(ka == kb), key=kb), violations=viol)
     res = check_c19(case["mode"], ka, kb, case["at"], case["by"], case["nbase"])
     return dict(digest=dict(ok=not res), violations=[list(res)] if res else [])
